@@ -65,6 +65,19 @@ func newStringPrefixFilter(code *syntax.Code) StringPrefixFilter {
 	}
 }
 
+// hasRuneError reports whether a literal contains U+FFFD. Every decoder turns
+// an invalid input byte into U+FFFD, which the interpreter then matches against
+// a literal U+FFFD; a search of the raw bytes for the literal's encoding would
+// miss those positions, so such literals get no pre-decode filter.
+func hasRuneError(literals ...string) bool {
+	for _, s := range literals {
+		if strings.ContainsRune(s, utf8.RuneError) {
+			return true
+		}
+	}
+	return false
+}
+
 type asciiSetStringScanner struct {
 	chars    string
 	first    byte
@@ -153,6 +166,9 @@ func stringIndexPrefixFilter(prefix string, ignoreCase bool, minRequiredLength i
 	if ignoreCase && !isASCIIString(prefix) {
 		return nil
 	}
+	if hasRuneError(prefix) {
+		return nil
+	}
 
 	return func(input string, startAt int) (candidateByteIndex int, ok bool) {
 		if !hasMinRequiredBytes(input, startAt, minRequiredLength) {
@@ -182,6 +198,9 @@ func stringIndexPrefixesFilter(prefixes []string, ignoreCase bool, minRequiredLe
 				return nil
 			}
 		}
+	}
+	if hasRuneError(prefixes...) {
+		return nil
 	}
 
 	if filter, ok := compileASCIIStringSetPrefixFilter(prefixes, ignoreCase, minRequiredLength); ok {
@@ -327,6 +346,9 @@ func stringFixedDistanceStringFilter(literal string, distance, minRequiredLength
 	if literal == "" || distance < 0 || len(literal) > maxStringFilterLiteralLen {
 		return nil
 	}
+	if hasRuneError(literal) {
+		return nil
+	}
 
 	return func(input string, startAt int) (candidateByteIndex int, ok bool) {
 		if !hasMinRequiredBytes(input, startAt, minRequiredLength) {
@@ -358,6 +380,9 @@ func stringLiteralAfterLoopFilter(literal *syntax.LiteralAfterLoop, minRequiredL
 		return nil
 	}
 	if literal.StringIgnoreCase && (literal.String == "" || !isASCIIString(literal.String)) {
+		return nil
+	}
+	if hasRuneError(literal.String) {
 		return nil
 	}
 
